@@ -327,6 +327,10 @@ def summarize(report, results, prop):
         v_ = r.get('validated') or {}
         if v_.get('ok') is True:
             nvalid += 1
+        elif 'ok' in v_ and v_.get('ok') is None:
+            # the replay driver did not build / run: nothing this harness would "confirm" or "not reproduce" can be believed
+            report.harness_errors.append('REPLAY DRIVER BROKEN in %s: %s' % (r['unit'], str(v_.get('why'))[-300:]))
+            mism.append(r['unit'])
         elif v_.get('ok') is False:
             report.harness_errors.append('ENCODING MISMATCH in %s: %s' % (r['unit'], v_.get('why')))
             mism.append(r['unit'])
